@@ -242,6 +242,10 @@ def rule_r3(repo):
                     if e[0] == 'valstore':
                         for ms in sym_find(e[1], lambda s: s.op == 'MISSING'):
                             found += 1
+                            if ms is not e[1]:
+                                rr.fail('Encoder.%s:missing-diff-value' % m, e[2],
+                                        'path [%s]: a missing subset value is coded as %r, not as the all-ones marker itself: the decoder only '
+                                        'recognises NUMERIC_MISSING_VALUES[width] as missing' % (r.desc(), e[1]))
                             if loop_width is not None and repr(ms.args[0]) != repr(loop_width):
                                 rr.fail('Encoder.%s:missing-diff-width' % m, e[2],
                                         'path [%s]: a missing subset value is coded as NUMERIC_MISSING_VALUES[%r] but the differences are written with %r bits' % (
@@ -329,6 +333,13 @@ def run(repo, check):
     for f in r7.findings:
         f.rule = 'C02.R7'
     check.add(r7)
+    from sa.rules import c06
+    from sa.rules.common import share
+    share(check, repo, c04.rule_r3, 'C02.R8', 'section lengths and padding written by the encoder (shared with C04.R3)',
+          keep=lambda f: not f.key.startswith('Decoder.'), args=(check.tier,))
+    share(check, repo, c19.rule_r1, 'C02.R9', 'the bit writer appends exactly the field it is asked to (shared with C19.R1)',
+          keep=lambda f: 'Writer' in f.key, args=(check.tier,))
+    share(check, repo, c06.rule_r1, 'C02.R10', 'operator state is reset between the subsets being encoded (shared with C06.R1)')
     check.assumptions = ['bitstring writes an n-bit unsigned field MSB first and refuses values that do not fit (trusted base)',
                          'byte identity with an independent encoder is a runtime fact and is not decided; the rules decide that the encoder '
                          'and the decoder agree on every field sequence and that the arithmetic is the FM-94 one']
